@@ -98,6 +98,11 @@ Compare(S, res, in, ob, hist2) ==
                 \cup (LET pegA == {res.info.pegOut[i].a : i \in 1..Len(res.info.pegOut)}
                           X == (DA \cap pegA) \ (winnersA \cup special \cup res.info.stakers \cup burners) IN
                       IF X # {} THEN {<<"C16", <<"PEG paid from the bank / refund to a requester differs from its share", h, X>>>>} ELSE {})
+                \* C05: an address ends with LESS than the specification's events leave it, although it is not the input address of any batch
+                \* considered in this block (the scheduled adjustments are part of the specification's events): a debit nobody signed
+                \cup (LET inputsA == UNION {{e.txs[i].a : i \in 1..Len(e.txs)} : e \in {Sn.ent[x] : x \in res.info.visited \cap DOMAIN Sn.ent}}
+                          X == {d[1] : d \in {dd \in D : BLt(obal[dd[1]][dd[2]], Sn.bal[dd[1]][dd[2]])}} \ inputsA IN
+                      IF X # {} THEN {<<"C05", <<"an address was debited although no authorised batch of the block draws on it", h, X>>>>} ELSE {})
                 \cup (LET X == (DA \cap batchA) \ (winnersA \cup special \cup res.info.stakers \cup burners) IN
                       IF X # {} THEN {<<"C03", <<"batch effects are not all-or-nothing / exact", h, X>>>>} ELSE {})
       \* C06: an address whose balance of some asset grew by exactly 2, 3 or 4 times the amount the block's events credit to it
